@@ -258,6 +258,27 @@ func w3() uint64 {
 	return twice(v, 1) + measure(v)
 }
 """
+        # ---- calibration of the arity oracle on the repository's own output files, then types nested in types (an array type
+        #      inside a slice, map or make must stay ONE argument of the outer constructor)
+        for gf in sorted(glob.glob(os.path.join(C.REPO, "internal", "examples", "**", "*.gold.v"), recursive=True)):
+            rep = k4.gl_session(open(gf).read(), ["arity"])
+            if rep[0].startswith("parse-error") or rep[1] != "arity -":
+                raise C.Infra("arity oracle disagrees with the repository's gold file %s: %s" % (gf, rep[1][:300]))
+            stats["arity_calibration_files"] += 1
+        tsrc = ("package p\n\ntype A4 [4]byte\n\ntype R struct {\n\trows [][4]byte\n\tm    map[uint64][2]uint64\n\tp    *[3]uint64\n}\n\n"
+                "func Rows(n uint64) uint64 {\n\txs := make([][4]byte, n)\n\treturn uint64(len(xs))\n}\n\nfunc Table() map[uint64][2]uint64 {\n\treturn make(map[uint64][2]uint64)\n}\n")
+        troot = os.path.join(scratch, "ty")
+        gomod.write_module(troot, {"p": {"p.go": tsrc}})
+        trc, tgerr, ttext = k4.translate(troot)
+        stats["nested_type_probes"] += 1
+        if ttext is not None:
+            trep = k4.gl_session(ttext, ["arity"])
+            if trep[0].startswith("parse-error"):
+                viol("C05: types nested in types — the emitted file cannot be read back", {"proto": "c05-types", "package": tsrc}, "well-formed", k4.unhex(trep[0]))
+            elif trep[1] != "arity -":
+                viol("C05: a type nested in a type is printed so that it reads back as several arguments of the outer constructor",
+                     {"proto": "c05-types", "package": tsrc, "emitted": ttext[:1500]}, "every type constructor applied to as many arguments as it has", trep[1])
+        shutil.rmtree(troot, ignore_errors=True)
         # ---- logging calls where an EXPRESSION is needed (goose prints a logging call as a comment)
         lsrc = """package p
 
